@@ -9,10 +9,13 @@ Procs(n) == {<<a>> : a \in 0..n} \cup {<<a, b>> : a \in 0..n, b \in 0..n}
 \* host barrier
 QuickScenarios == {S(1, k, p) : k \in 1..2, p \in Procs(2)} \cup {S(1, 1, <<3>>), S(1, 2, <<3>>), S(1, 2, <<1, 3>>)}
                   \cup {S(2, 1, p) : p \in {<<1>>, <<0, 1>>, <<2>>, <<1, 1>>}} \cup {S(2, 2, <<1>>)}
-\* thorough: the full bounds: hosts 1..2, executors 1..2, 1..2 processors, 0..3 tasks each
-ThoroughScenarios == {S(h, k, p) : h \in 1..2, k \in 1..2, p \in Procs(3)}
+\* thorough: the full bounds (1..2 processors of 0..3 tasks) for one host with 1..2 executors and for two hosts with 1 executor;
+\* two hosts with 2 executors each up to 3 tasks in total (the full product H=2, K=2, 2 x 3 tasks has > 10^8 states: the hosts
+\* only interact through the DriverActor's barrier)
+ThoroughScenarios == {S(1, k, p) : k \in 1..2, p \in Procs(3)} \cup {S(2, 1, p) : p \in Procs(3)}
+                     \cup {S(2, 2, p) : p \in Procs(1) \cup {<<2>>, <<3>>, <<1, 1>>, <<2, 1>>, <<1, 2>>, <<2, 0>>, <<0, 2>>}}
 LiveScenarios == {S(1, 2, <<2>>), S(1, 2, <<1, 1>>), S(1, 1, <<0, 2>>), S(2, 1, <<1>>)}
-LiveThoroughScenarios == {S(h, k, p) : h \in 1..2, k \in 1..2, p \in Procs(2)}
+LiveThoroughScenarios == {S(1, k, p) : k \in 1..2, p \in Procs(2)} \cup {S(2, 1, p) : p \in {<<1>>, <<0, 1>>, <<1, 1>>, <<2>>}} \cup {S(2, 2, <<1>>)}
 SelfTestScenarios == {S(1, 2, <<2>>), S(2, 1, <<1>>)}
 
 (* what the harness runs: TrackProcessorRegistry puts its three required processors first, each yields one no-op task *)
